@@ -445,6 +445,7 @@ def main_check(prop, mod_name, tier, seed, replay=None):
             'notes': dict(sorted(notes.items())),
             'skipped_for_time_budget': skipped,
             'known_findings_hit': {known_sigs[s]['what_fails']: v['count'] for s, v in hit_known.items()},
+            'known_signatures_hit': sorted(hit_known),
             'new_violation_signatures': sorted(new),
             'exhaustive': bool(parts) and all(p.exhaustive for p in parts) and skipped == 0,
             'tree_under_test': REPO,
